@@ -1,1 +1,82 @@
-From XV Require Import lib.Bytes gen.Styling C17.Model.
+(* C17/Examples.v — non-vacuity of the hypotheses and worked examples. *)
+From XV Require Import lib.Bytes gen.Styling C17.Model C17.Proofs.
+
+Definition show (r : list obs * endst) :=
+  (map (fun o => (o_data o, o_info o, o_style o, o_quote o)) (fst r), snd r).
+
+(* the test suite's "spans" document *)
+Example ex_spans :
+  map (fun o => (o_data o, o_style o)) (fst (ref_decode (str "*strong* _emph_")))
+  = [(str "*", N.lor sSpanStrong sSpanStrongStart); (str "strong", sSpanStrong);
+     (str "*", N.lor sSpanStrong sSpanStrongEnd); (str " ", 0%N);
+     (str "_", N.lor sSpanEmph sSpanEmphStart); (str "emph", sSpanEmph);
+     (str "_", N.lor sSpanEmph sSpanEmphEnd)].
+Proof. vm_compute. reflexivity. Qed.
+
+(* a quoted preformatted block with an info string, then a drop of the quote level *)
+Definition doc1 : bytes := str "> ```go
+> x *y*
+out *z*".
+
+Example ex_doc1 : show (ref_decode doc1) =
+  ([(str "> ", [], 258%N, 1); (str "```go
+", str "go", 67%N, 1); (str "> ", [], 258%N, 1); (str "x *y*
+", [], 3%N, 1); ([], [], 514%N, 1); (str "out ", [], 0%N, 0);
+    (str "*", [], 4104%N, 0); (str "z", [], 8%N, 0); (str "*", [], 8200%N, 0)], EEOF).
+Proof. vm_compute. reflexivity. Qed.
+
+(* hypothesis of C17_chunk_independent_partial: a non-trivial instance *)
+Example ex_not_too_long : snd (ref_decode doc1) <> ETooLong.
+Proof. vm_compute. discriminate. Qed.
+
+(* ... and three chunkings of it, among them byte by byte with EOF on the last byte *)
+Example ex_chunkings :
+  decode doc1 [1;1;1;1;1;1;1;1;1;1;1;1;1;1;1;1;1;1;1;1;1;1;1;1] true = ref_decode doc1 /\
+  decode doc1 [3; 1; 7] false = ref_decode doc1 /\ decode doc1 [] true = ref_decode doc1.
+Proof. vm_compute. repeat split; reflexivity. Qed.
+
+(* hypothesis of C17_scan_extension_stable: a token decided on a strict prefix *)
+Example ex_scan_tok : exists ds', scan dec0 (str "> a") false = STok 2 ds'.
+Proof. eexists. vm_compute. reflexivity. Qed.
+
+(* hypothesis of C17_scan_more_repeatable: the quote start token is undecided
+   while its white space reaches the end of the buffer (the repaired behaviour) *)
+Example ex_scan_more : exists ds1, scan dec0 (str ">  ") false = SMore ds1.
+Proof. eexists. vm_compute. reflexivity. Qed.
+Example ex_scan_more_rune : exists ds1, scan dec0 (hex "3ee280") false = SMore ds1.
+Proof. eexists. vm_compute. reflexivity. Qed.
+
+(* the checker is not vacuous: it rejects an end that does not match, a line
+   break inside a span, and a span left open at EOF *)
+Example ex_checker_rejects :
+  brackets_ok [mkobs (str "*") [] (N.lor sSpanStrong sSpanStrongStart) 0;
+               mkobs (str "_") [] (N.lor sSpanStrong (N.lor sSpanEmph sSpanEmphEnd)) 0] EEOF = false /\
+  brackets_ok [mkobs (str "*") [] (N.lor sSpanStrong sSpanStrongStart) 0;
+               mkobs (str "a
+") [] sSpanStrong 0;
+               mkobs (str "*") [] (N.lor sSpanStrong sSpanStrongEnd) 0] EEOF = false /\
+  brackets_ok [mkobs (str "*") [] (N.lor sSpanStrong sSpanStrongStart) 0] EEOF = false /\
+  brackets_ok [mkobs (str "*") [] sSpanStrongStart 0] EEOF = false.
+Proof. vm_compute. repeat split; reflexivity. Qed.
+
+(* invariants of the bracket proof are inhabited beyond the initial state *)
+Example ex_wf : match scan dec0 (str "> > a") true with STok _ ds' => wf ds' | _ => False end.
+Proof. vm_compute. constructor. Qed.
+
+Example ex_closes : closes [c_under; c_star] (str "b_ c* d").
+Proof.
+  exists (str "b"), (str " c* d"). split; [reflexivity|]. split.
+  - intros x [<-|[]]. split; [reflexivity|]. cbn. intuition discriminate.
+  - exists (str " c"), (str " d"). split; [reflexivity|]. split; [|exact I].
+    intros x [<-|[<-|[]]]; (split; [reflexivity|cbn; intuition discriminate]).
+Qed.
+
+(* the two defects repaired in the library, as the model now behaves *)
+Example ex_fixed_quote : fst (decode (str ">  a") [1;1;1;1] false) = fst (ref_decode (str ">  a")).
+Proof. vm_compute. reflexivity. Qed.
+Example ex_fixed_pre : decode (str "```
+```
+") [] true = decode (str "```
+```
+") [] false.
+Proof. vm_compute. reflexivity. Qed.
